@@ -817,7 +817,11 @@ func (e *Env) call(x *ECall) Val {
 		v := arg(0)
 		return Val{T: sx("s-cap", v.T), S: "Int"}
 	case "arr":
+		// backing array of a slice, or the array object of an array-typed field
 		v := arg(0)
+		if v.S != "Slice" {
+			return Val{T: v.T, S: "Int"}
+		}
 		return Val{T: sx("s-arr", v.T), S: "Int"}
 	case "off":
 		v := arg(0)
